@@ -289,7 +289,18 @@ func c07CBORDispatch(w *World, r *Recorder) {
 	}
 	// selector struct
 	var sel *ssa.Alloc
-	for _, b := range fn.Blocks {
+	// the decoder's own blocks and those of function literals nested in it
+	// (an immediately-invoked literal may scope the selector)
+	var blocks []*ssa.BasicBlock
+	var collect func(f *ssa.Function)
+	collect = func(f *ssa.Function) {
+		blocks = append(blocks, f.Blocks...)
+		for _, a := range f.AnonFuncs {
+			collect(a)
+		}
+	}
+	collect(fn)
+	for _, b := range blocks {
 		for _, in := range b.Instrs {
 			if al, ok := in.(*ssa.Alloc); ok {
 				if st, ok := al.Type().Underlying().(*types.Pointer).Elem().Underlying().(*types.Struct); ok {
